@@ -290,6 +290,13 @@ class HFloat(HBase):
             return v
         if self.rng is not None:
             v = self.rng.gauss(0, 1)
+            base = name.rstrip('0123456789_')
+            if base in ('alpha', 'tol', 'step', 'gamma', 'eps', 'delta', 'L', 'c', 'alpha1', 'alpha2') or name in ('alpha1', 'alpha2'):
+                v = abs(v) * (0.05 if base in ('tol', 'alpha') else 1.0) + 1e-3      # positive hyper-parameters
+                if base == 'gamma':
+                    v += 3.0
+            elif base in ('wt', 'wg', 'wf', 'sw'):
+                v = 0.0 if self.rng.random() < 0.3 else abs(v)                       # weights: zeros are frequent triggers
             self.values[name] = v         # cached: the same input keeps its value if the unit asks again
             return v
         return 0.0
